@@ -248,6 +248,16 @@ func rawQuery(p *Prof, input string) string {
 	return o.Fields0(fQuery)
 }
 
+// longQuery: many parameters with repeated names
+func (r *Rng) longQuery() string {
+	n := 10 + r.Intn(40)
+	var ps []string
+	for k := 0; k < n; k++ {
+		ps = append(ps, r.Pick([]string{"a", "b", "c", "a", "bb", "", "B"})+"="+fmt.Sprint(k%7))
+	}
+	return strings.Join(ps, "&")
+}
+
 func sortedPairsBy(l []string, full bool) []string {
 	type p struct{ n, v string }
 	var ps []p
@@ -362,7 +372,9 @@ func init() {
 				r := rng.Fork(i)
 				p := composed[r.Intn(len(composed))]
 				in := r.anyInput()
-				if r.Chance(1, 3) {
+				if r.Chance(1, 10) {
+					in = "https://h/?" + r.longQuery()
+				} else if r.Chance(1, 3) {
 					in = r.webURL().spell(r, spellOpts{caseScheme: true, caseHost: true, defaultPort: true, dotSeg: true, pct: true, depth: 3, emptyFrag: true}, r.Next())
 				}
 				idem(d, p, in, "composed", i)
@@ -472,6 +484,8 @@ func init() {
 					if r.Chance(1, 2) {
 						input = r.relRef()
 					}
+				} else if r.Chance(1, 8) {
+					input = "http://h/p?" + r.longQuery()
 				}
 				cs := Case{Kind: "parse", Base: base, Input: input, Family: "options", Index: i}
 				o := c.cmpParse(d, defaultCfg, base, input, allFields, true, "default", i)
